@@ -128,8 +128,8 @@ META = {
     'explanation': 'C06 (narrow): only the operator binding-power relation of the Pratt parser is decided: infix_binding_power / is_comparison are executed from MIR for every '
                    'Token / BinOp variant and the induced grouping relation is compared with the reference precedence table for every ordered operator pair (pair chosen by the solver).',
     'bounds': 'all 85 Token variants, all 21 BinOp variants, all ordered pairs of the 22 operator tokens',
-    'outside': 'acceptance/rejection of token sequences beyond two operators, arguments, slices, statements, tuples, the Display round trip: most of C06. The loop of parse_expr IS executed '
-               'symbolically (C06.parse_expr_loop) for streams of three identifier operands with symbolic operator tokens; operand parsing (parse_unary) is a stub.',
+    'outside': 'acceptance/rejection of token sequences beyond those streams, arguments, slices, statements, tuples, the Display round trip: most of C06. The loop of parse_expr IS executed '
+               'symbolically (C06.parse_expr_loop) for streams of three identifier operands with two symbolic operator tokens, with prefix `not` before the first or second operand and `not in` (quick), and four operands with three symbolic operator tokens (thorough, 8000 triples); operand parsing (parse_unary) is a stub.',
     'assumptions': ['the Pratt continuation rule of parse_expr is as restated (trusted; replay parses `a t1 b t2 c`)'],
 }
 
